@@ -155,7 +155,8 @@ static std::string proj(const cpc_sketch& s, bool cells = true) {
 // ---------------------------------------------------------------------------------------------------------
 // driver state
 // ---------------------------------------------------------------------------------------------------------
-static const int NS = 10, NU = 3, NB = 4;
+static const int NS = 13, NU = 3, NB = 4;
+static const int EMPTY_SLOT = 7;   // union rounds: slot of the EMPTY probe sketches (inputs 0..4, result 5, fed-back result 6)
 struct World {
   vt::Rng g;
   std::unique_ptr<cpc_sketch> sk[NS];
@@ -567,8 +568,35 @@ static void union_round(World& w, int u, int ulgk, const std::vector<int>& order
     w.sk[dst].reset(new cpc_sketch(w.un[u]->get_result()));
     Ev("UResult").i("u", u).i("dst", dst).raw("r", proj(*w.sk[dst])).emit(); w.budget--;
   }
+  // EMPTY inputs are a regular part of every round: an empty sketch of smaller / equal / larger lg_k than the union currently
+  // has, offered first, in the middle or last, lvalue or rvalue - into a union that is still empty, on its accumulator or on
+  // its bit matrix.  The property: only NON-EMPTY inputs lower the result's lg_k, and an empty input changes nothing.
+  auto empty_probe = [&](bool force_result) {
+    int lgk;
+    int c = (int)w.g.below(100);
+    if (c < 45) lgk = (int)w.g.range(4, std::max(4, ulgk - 1));          // usually strictly smaller than the configured lg_k
+    else if (c < 60) lgk = 4;                                             // the smallest there is
+    else if (c < 75) lgk = ulgk;
+    else lgk = (int)w.g.range(ulgk, 12);
+    ev_new(w, EMPTY_SLOT, lgk);
+    if (w.g.chance(35)) {
+      w.un[u]->update(std::move(*w.sk[EMPTY_SLOT]));
+      w.sk[EMPTY_SLOT].reset(); clear_slot(w, EMPTY_SLOT);
+      Ev("UUpdate").i("u", u).i("src", EMPTY_SLOT).b("rvalue", true).b("emptysrc", true).emit(); w.budget--;
+    } else {
+      w.un[u]->update(*w.sk[EMPTY_SLOT]);
+      Ev("UUpdate").i("u", u).i("src", EMPTY_SLOT).b("rvalue", false).b("emptysrc", true).emit(); w.budget--;
+    }
+    if (force_result || w.g.chance(60)) {
+      clear_slot(w, dst);
+      w.sk[dst].reset(new cpc_sketch(w.un[u]->get_result()));
+      Ev("UResult").i("u", u).i("dst", dst).raw("r", proj(*w.sk[dst])).emit(); w.budget--;
+    }
+  };
+  if (w.g.chance(45)) empty_probe(false);                                 // first: into the empty union
   for (size_t q = 0; q < order.size(); q++) {
     int i = order[q];
+    if (q > 0 && w.g.chance(35)) empty_probe(false);                      // in the middle
     bool rv = w.g.chance(35);
     if (rv) {
       // rvalue update consumes a copy of the input
@@ -594,6 +622,7 @@ static void union_round(World& w, int u, int ulgk, const std::vector<int>& order
       Ev("UResult").i("u", u).i("dst", dst).raw("r", proj(*w.sk[dst])).emit(); w.budget--;
     }
   }
+  if (w.g.chance(50)) empty_probe(true);                                  // last: the result must not change
 }
 
 static void seg_union(World& w, int maxlgk) {
